@@ -19,7 +19,7 @@ Definition fail_code_n (c : fail_code) : N :=
   match c with
   | FStepLimit => 0 | FNoCategory => 1 | FChildFailed => 2 | FMissingFlow => 3 | FParentMissingFlow => 3
   | FMaxResumes => 4 | FNoLocation => 5 | FNoWait => 6 | FRouteError => 7 | FParentNodeGone => 8
-  | FEnterMissingFlow => 10 | FEnterFlowType => 11
+  | FEnterMissingFlow => 10 | FEnterFlowType => 11 | FVoiceNoCall => 12
   end.
 
 Definition b2n (b : bool) : N := if b then 1 else 0.
